@@ -34,6 +34,21 @@ CLAIMED = {
     technique='bounded symbolic execution of hephaestus.py (check_oracle, update_stats, stop_condition, get_batches, '
               '_run) with solver-boolean verdicts; integer lemmas in z3 LIA',
     design='4/C15'),
+ 'C14': dict(
+    text='Layer 1: the live ERROR/CRASH/STACKOVERFLOW patterns of the four compiler classes are translated from '
+         "re's own parse tree into z3 regular expressions; acceptance (every error unit of the compiler's line/block "
+         'grammar is matched anchored), rejection (text free of the error token is never matched), group-1-is-the-path, '
+         'match locality and crash classification are decided as regex inclusion/emptiness queries over strings of '
+         'unbounded length. Layer 2: real analyze_compiler_output (base + Groovy override) on batch skeletons with '
+         'symbolic kinds/files/filter/crash bits (3 units x 2 files quick, 4 x 3 thorough). Java additionally against '
+         'real javac 17 on every erroneous subset of 3 (5) files.',
+    note='trusted: z3 sequence solver (no second solver decides these queries here), the 150-line sre->z3 translator '
+         '(validated each run on solver-made members/non-members through the real re module), the line grammars '
+         '(javac validated against real javac; kotlinc/groovyc/scalac formats from the regex comments); free text must '
+         'not contain the per-language tokens; findall composition over a batch argued on paper',
+    technique='regex inclusion/emptiness lemmas in z3 on the live patterns + bounded symbolic execution of '
+              'analyze_compiler_output + real javac runs',
+    design='4/C14'),
 }
 
 NOT_YET = 'check not built yet in this round (planned per DESIGN.md build order); not claimed'
